@@ -47,7 +47,7 @@ type layerGen struct {
 	kind     map[string]byte
 	wh       map[string]bool // clean path D/X for which this layer has D/.wh.X
 	ents     []gen.Entry
-	regs     []string // regular files of this layer (hardlink targets, prioritized files)
+	regs     []string        // regular files of this layer (hardlink targets, prioritized files)
 	explicit map[string]bool // directories with an explicit entry in this layer
 	prefix   string
 	feat     map[string]int
